@@ -196,7 +196,11 @@ func (a *aliasScan) interior() bool {
 	return false
 }
 
-func noteShimFunc(f any) { shimFuncPtrs[reflect.ValueOf(f).Pointer()] = true }
+func noteShimFunc(f any) {
+	if !Active { // see newShimOnce
+		shimFuncPtrs[reflect.ValueOf(f).Pointer()] = true
+	}
+}
 
 // RestoreDisabled is set when the package state contains something that cannot be put back
 // (a non-nil function value that is not one of the simulator's own Once closures: state may
